@@ -803,6 +803,19 @@ impl Check for C06 {
         "C06"
     }
 
+    fn declared_probes(&self) -> Vec<&'static str> {
+        vec![
+            "fault.adversarial-stream-words",
+            "fault.component-fail",
+            "fault.empty-population",
+            "fault.missing-test-case",
+            "fault.tournament-larger-than-population",
+            "fault.zero-total-weight",
+            "probe.population-of-2^32-zero-sized-individuals",
+            "probe.selector-value-used-before-the-checked-call",
+        ]
+    }
+
     fn rule(&self) -> String {
         "seeded single selections: (a) trees (depth <= 3) of the real Best/Worst/Random/Tournament/Lexicase, a failing probe selector, \
          Weighted, WeightedPair, DynWeighted, &S, Select and &dyn/Box/Arc erased routes over populations of 0-8 EcIndividuals with ragged, \
